@@ -1351,7 +1351,7 @@ func verifC14GenProgram(t *rapid.T) *verifC14Program {
 	if rapid.IntRange(0, 9).Draw(t, "exotic_names") < 4 {
 		pool = verifC14NamePool // includes names that need URL escaping in a certificate
 	}
-	n := rapid.SampledFrom([]int{0, 1, 2, 2, 3, 3, 3, 4, 4, 4, 5, 5, 6, 7}).Draw(t, "n")
+	n := rapid.SampledFrom([]int{0, 1, 2, 3, 3, 4, 4, 4, 5, 5, 5, 6, 6, 7, 7}).Draw(t, "n")
 	type key struct {
 		wild       bool
 		name, peer string
@@ -1359,7 +1359,7 @@ func verifC14GenProgram(t *rapid.T) *verifC14Program {
 	seen := map[key]bool{}
 	for i := 0; i < n; i++ {
 		var s verifC14Source
-		if rapid.IntRange(0, 9).Draw(t, "src_wild") < 3 {
+		if rapid.IntRange(0, 9).Draw(t, "src_wild") < 4 {
 			s.Name = "*"
 		} else {
 			s.Name = rapid.SampledFrom(pool).Draw(t, "src")
